@@ -614,6 +614,19 @@ class Interp:
             return
         self.sweep()
 
+    def op_detour(self, op):
+        """A sub-map of the tree is also put into another map for a while
+        (a scratch collection), which lets go of it again: the tree still
+        contains it, its back-link does not lead to the tree any more."""
+        target = self.resolve(op[1])
+        if target is None or target is self.root or target.obj is None:
+            return 'skip'
+        other = self.desper.ResourceMap()
+        other['borrowed'] = target.obj
+        other.clear()
+        target.detoured = True
+        self.probes['sub_map_borrowed_by_another_map'] += 1
+
     def op_set(self, op):
         _, mpath, key, spec = op
         target = self.resolve(mpath)
@@ -984,7 +997,8 @@ class Interp:
             if o is not sub.obj:
                 self.fail('C11', 'get_mismatch', f'{where}: sub-map '
                           f'{name!r} is not the object that was assigned')
-            if o.parent is not real or o.key != name:
+            if (o.parent is not real or o.key != name) \
+                    and not getattr(sub, 'detoured', False):
                 imp = getattr(sub, 'implicit', False)
                 self.fail('C11', 'backlink', f'{"implicit " if imp else ""}'
                           f'map stored under {where!r} as {name!r} has parent'
@@ -1104,7 +1118,7 @@ WEIGHTS = {
                 clear_handle=1.6, loop_switch=.8, snap=.7, snap_check=1.2,
                 touch=.5),
     'C17': dict(set=4.5, clear=.5, layer=1, call=.5, getitem=.3,
-                clear_handle=.5, snap=2, snap_check=2),
+                clear_handle=.5, snap=2, snap_check=2, detour=.25),
 }
 
 
@@ -1248,6 +1262,8 @@ def generate(prop, run_seed, tier='quick', tolerate=frozenset()):
                         rng.random() < .4, rng.random() < .4])
         elif kind == 'touch' and gs.fileworlds:
             ops.append(['touch', rng.choice(gs.fileworlds)])
+        elif kind == 'detour' and mpath:
+            ops.append(['detour', mpath])
         elif kind == 'snap':
             gs.snaps += 1
             ops.append(['snap', gs.snaps, mpath if rng.random() < .5 else []])
